@@ -29,7 +29,7 @@ Supported subset — nothing more:
   * early `return` (of a bool expression, or of nothing);
   * `self._record_success()` / `self._record_failure()` / `self._check_circuit()` -> the translated method;
   * dropped: console `print`, `self._record_result(...)` (audit log; checked not to touch the breaker), local
-    `result = LoopResult(...)`, and any `if` all of whose branches consist of dropped statements and whose test is
+    `result = LoopResult(...)` — each only when its arguments are call-free —, and any `if` all of whose branches consist of dropped statements and whose test is
     call-free (`if not self.silent: print(...)`).
 Anything else: the definition becomes `untranslatable "<construct (line)>"` (a default value), which makes the
 agreement theorem fail (fail closed).  Harmless rewrites inside the subset (reordered independent assignments,
@@ -244,12 +244,14 @@ class Tr:
             return True
         if isinstance(st, ast.Expr) and isinstance(st.value, ast.Call):
             f = st.value.func
-            if isinstance(f, ast.Name) and f.id == "print":
+            pure_args = not any(has_call(a) for a in st.value.args) and not any(has_call(k.value) for k in st.value.keywords)
+            if isinstance(f, ast.Name) and f.id == "print" and pure_args:
                 return True
-            if is_self(f, "_record_result"):
+            if is_self(f, "_record_result") and pure_args:
                 return True
         if (isinstance(st, ast.Assign) and len(st.targets) == 1 and isinstance(st.targets[0], ast.Name)
-                and isinstance(st.value, ast.Call) and isinstance(st.value.func, ast.Name) and st.value.func.id == "LoopResult"):
+                and isinstance(st.value, ast.Call) and isinstance(st.value.func, ast.Name) and st.value.func.id == "LoopResult"
+                and not any(has_call(a) for a in st.value.args) and not any(has_call(k.value) for k in st.value.keywords)):
             return True
         if isinstance(st, ast.If) and not has_call(st.test):
             return all(self.dropped(x) for x in st.body) and all(self.dropped(x) for x in st.orelse)
